@@ -52,7 +52,25 @@ def shrink(script, pred, max_trials=400):
     return cur
 
 
+def loops_wellformed(script):
+    """every loop is created inside a transaction and closed before that transaction ends
+    (the Sodium rule; the generator obeys it, the shrinker must not break it)"""
+    dep = line_depths(script)
+    open_loops = {}
+    for j, l in enumerate(script):
+        w = l.split()
+        d_before = dep[j - 1] if j else 0
+        if w[0] in ("sloop", "cloop") and len(w) == 2:
+            if d_before == 0: return False
+            open_loops[w[1]] = True
+        if w[0] in ("sloopclose", "cloopclose") and len(w) == 3:
+            open_loops[w[1]] = False
+        if dep[j] == 0 and any(open_loops.values()): return False
+    return not any(open_loops.values())
+
+
 def differs(script):
+    if not loops_wellformed(script): return False
     runs, bad, rc, herr = compare([script])
     return bool(bad)
 
@@ -93,3 +111,130 @@ def replay(path):
         flag = "" if (h == m or ignorable(h, m)) else "   <-- differs from S"
         print(f"{o:34s} impl: {h}\n{'':34s} spec: {m}{flag}")
     return 1 if bad else 0
+
+
+# ---------------------------------------------------------------------------------------------
+# property profiles (generator settings biased towards each property's quantifier)
+W = dict
+PROFILES = {
+    "C01": [("nesting", dict(intxn_defs=0.5, scoped=0.5, deep_nest=0.5, nest=0.8, unlisten=0.3, n_listen=(2, 5), obs=0.2)),
+            ("late-listeners", dict(intxn_defs=0.8, nest=0.9, n_listen=(0, 2)))],
+    "C02": [("streams", dict(n_defs=(4, 14), samples=0.1, self_merge=True,
+                             weights=W(map=5, mapto=1, filter=3, filteropt=1, merge=6, orelse=2, snapshot=3, snapshot1=1, snapshotn=1.5, gate=2, once=2,
+                                       hold=1.5, mapc=0.5, lift2=0.5, liftn=0, accum=0.5, collect=0.3, value=0.3, updates=1))),
+            ("streams-intxn", dict(n_defs=(3, 10), intxn_defs=0.5, self_merge=True, weights=W(once=3, merge=6, gate=2)))],
+    "C04": [("cells", dict(samples=0.9, n_txn=(5, 20), intxn_defs=0.3, n_listen=(0, 2),
+                           weights=W(hold=4, holdlazy=1.5, accum=3, collect=3, snapshot=4, csink=3, gate=1.5, mapc=1, lift2=1)))],
+    "C05": [("switch", dict(n_defs=(5, 12), samples=0.5, intxn_defs=0.2, sends_per_txn=(1, 4),
+                            weights=W(switchs=4, switchc=4, csink=4, hold=3, ssink=4, lift2=1, accum=1)))],
+    "C10": [("listeners", dict(n_listen=(2, 6), unlisten=0.5, intxn_defs=0.6, drops=0.3, gcs=0.3, weak=0.15, weights=W(value=2, hold=3, csink=3)))],
+    "C11": [("loops", dict(n_defs=(3, 9), samples=0.4, weights=W(sloop=2.5, cloop=2.5, hold=3, snapshot=4, accum=1, merge=4, gate=1, lift2=2, mapc=2))),
+            ("loops-misuse", dict(n_defs=(3, 8), malformed=True, weights=W(sloop=2, cloop=2, hold=3, snapshot=3)))],
+    "C12": [("deferred", dict(posts=0.4, samples=0.4, sends_per_txn=(1, 4), weights=W(defer=4, split=3, hold=3, csink=3, snapshot=4, snapshot1=2, once=1.5, accum=1)))],
+    "C13": [("lifts", dict(samples=0.9, n_defs=(5, 14), intxn_defs=0.3, sends_per_txn=(1, 4), lazies=0.2,
+                           weights=W(mapc=5, lift2=6, liftn=3, csink=4, hold=3, ssink=2, updates=2, value=1, switchc=0.7, cloop=0.7)))],
+    "C14": [("brackets", dict(scoped=0.7, deep_nest=0.7, nest=0.95, obs=0.6, intxn_defs=0.3, n_txn=(4, 10), malformed=False))],
+    "C15": [("sinks", dict(coalesce_sends=True, sends_per_txn=(1, 5), deep_nest=0.4, scoped=0.3, nest=0.8, samples=0.5, weights=W(ssinkc=6, csink=4, ssink=2, hold=3)))],
+    "C17": [("lazies", dict(lazies=0.9, samples=0.3, n_txn=(4, 14), weights=W(mapc=4, lift2=3, liftn=1, holdlazy=3, hold=3, csink=4, accum=2, cloop=1)))],
+    "C18": [("router", dict(n_defs=(4, 10), drops=0.3, gcs=0.3, weights=W(router=5, ssink=4, map=3, merge=3, hold=1)))],
+    "C06": [("drops", dict(drops=0.8, gcs=0.5, n_defs=(5, 14), n_txn=(4, 12),
+                           weights=W(sloop=1.5, cloop=1.5, accum=2, collect=2, switchs=1.5, switchc=1, router=1, defer=1, lift2=2, hold=3, snapshot=3)))],
+    "C07": [("abandon", dict(leakcheck=True, drops=0.4, gcs=0.3, n_txn=(0, 6), unlisten=0.3, no_switchc_in_loop=True,
+                             weights=W(sloop=1.5, cloop=1.5, accum=2, collect=2, switchs=1.5, switchc=1, router=1, defer=1, split=0.5, lift2=2, hold=3, snapshot=3, mapc=2)))],
+    "C09": [("reorder", dict(n_defs=(4, 12), samples=0.4, weights=W(defer=0.7, lift2=2, accum=1, switchs=0.5)))],
+}
+
+
+def gen_scripts(pid, tier, seed, nquick=1200, nthorough=12000):
+    rng = random.Random(seed * 7919 + int(pid[1:]))
+    n = nquick if tier == "quick" else nthorough
+    profs = PROFILES[pid]
+    out, tags = [], []
+    for k in range(n):
+        name, kw = profs[k % len(profs)]
+        kw = dict(kw)
+        if k % 10 == 9 and not kw.get("leakcheck"): kw["malformed"] = True
+        prof = apigen.profile(**kw)
+        out.append(apigen.generate(rng, prof)); tags.append(name)
+    return out, tags
+
+
+def line_depths(script):
+    """transaction depth after each line (well-bracketed scripts), following the script's own brackets"""
+    d, out, open_t = 0, [], {}
+    for l in script:
+        w = l.split()
+        if w[0] == "begin": d += 1
+        elif w[0] == "end" and d > 0: d -= 1
+        elif w[0] == "topen" and len(w) == 2 and w[1] not in open_t: open_t[w[1]] = True; d += 1
+        elif w[0] in ("tclose", "tdrop") and len(w) == 2 and open_t.get(w[1]):
+            open_t[w[1]] = False; d -= 1
+        out.append(d)
+    return out
+
+
+def impl_predicates(pid, script, hl):
+    """implementation-only failing-input predicates (no oracle). returns message or None"""
+    for j, h in enumerate(hl):
+        if h.startswith("HANG"): return f"line {j}: the library hangs"
+        if h.startswith("PANIC") and not (h.endswith("looped-twice") or h.endswith("sample-before-loop")):
+            return f"line {j}: the library panics: {h}"
+    if pid in ("C07",):
+        for j, h in enumerate(hl):
+            if h.startswith("leak=") and h != "leak=0": return f"line {j}: {h} nodes alive after everything was dropped and collected"
+    if pid in ("C14", "C01"):
+        for j, h in enumerate(hl):
+            if h.startswith("idle ") and h != "idle cn=0 pp=0 po=0 ac=0 firing=0": return f"line {j}: context not quiescent at idle: {h}"
+    if pid == "C01":
+        dep = line_depths(script)
+        for j, h in enumerate(hl):
+            if " | cb " in h and dep[j] > 0: return f"line {j}: a listener ran while a transaction was still open: {h}"
+    if pid in ("C17",):
+        for j, h in enumerate(hl):
+            if " runs=" in h and not h.endswith("runs=ok"): return f"line {j}: a lazy thunk ran more than once: {h}"
+    return None
+
+
+def run_api_prop(pid, tier, seed, extra_corpus=()):
+    t0 = time.time()
+    corp = [(f, s) for f, s in corpus("api")]
+    scripts = [s for _, s in corp]
+    gen, tags = gen_scripts(pid, tier, seed)
+    scripts += gen
+    runs, bad, rc, herr = compare(scripts)
+    viols = []
+    # 1. implementation-only predicates (first hit, minimised)
+    hit = None
+    for k, (hl, ml) in enumerate(runs):
+        msg = impl_predicates(pid, scripts[k], hl)
+        if msg: hit = (k, msg); break
+    os.environ["API_SCRIPT_TIMEOUT_MS"] = "2000"
+    seen_sigs = set()
+    def add(kind, k, msg, pred):
+        s = shrink(scripts[k], pred)
+        sig = " ; ".join(s)
+        if sig in seen_sigs: return
+        seen_sigs.add(sig)
+        r, b, _, _ = compare([s])
+        detail = ""
+        if b: detail = f"\n# at `{s[b[0][1]]}`: implementation `{b[0][2]}`, specification S `{b[0][3]}`"
+        viols.append({"what": msg, "found_input": True, "signature": sig,
+                      "replay_text": f"# {kind}: {msg}{detail}\n" + "\n".join(s) + "\n"})
+    if hit:
+        k, msg = hit
+        add("implementation-only predicate", k, msg, lambda c: loops_wellformed(c) and impl_predicates(pid, c, compare([c])[0][0][0]) is not None)
+    # 2. implementation vs S (at most 3 distinct minimised disagreements)
+    for (k, j, h, m) in bad[:12]:
+        if len(viols) >= 3: break
+        add("implementation differs from the specification S", k, f"`{scripts[k][j] if j < len(scripts[k]) else '?'}`: implementation `{h}`, S `{m}`", differs)
+    os.environ.pop("API_SCRIPT_TIMEOUT_MS", None)
+    st = stats(gen)
+    nontriv = len({tuple(s) for s in gen if any(l.startswith("send") for l in s) and any(l.startswith("listen") for l in s)})
+    cov = {"evaluations": len(scripts), "distinct_nontrivial": nontriv,
+           "rule": f"API scripts: corpus ({len(corp)}) + type-directed random programs under profile(s) {[p[0] for p in PROFILES[pid]]} (every 10th with malformed lines); "
+                   "each executed on the real library (harness api) and on the Lean specification S (driver spec), outputs compared line by line; non-trivial = has a listener and a send; distinct by script text",
+           "samples": [" ; ".join(gen[0]), " ; ".join(gen[-1])],
+           "correspondence": {"level": "L-api (implementation vs S)", "scripts": len(scripts), "disagreements": len(bad),
+                              "impl_only_predicate_hits": 1 if hit else 0},
+           "input_distribution": st}
+    return {"coverage": cov, "violations": viols, "summary": f"L-api scripts={len(scripts)} disagreements={len(bad)}"}
